@@ -9,7 +9,10 @@
 From Coq Require Import List Bool.
 Import ListNotations.
 
-Inductive cst := CInit | CArmed | CStopped | CResumed | CProgram | CParked | CDead.
+Inductive cst := CInit | CEarly | CCred | CArmed | CStopped | CResumed | CProgram | CParked | CDead.
+(** how the child goes about it: [Unarmed] = the pinned sequence; [ArmLate] = the repaired one (the request follows the change of
+    ids); [ArmEarly] = the request first, the change of ids after it (the kernel clears the request when the ids change) *)
+Inductive mode := Unarmed | ArmLate | ArmEarly.
 Inductive tst := TStart | TWaited | TOptSet | TRunning | TDead.
 
 Record ls := { l_c : cst; l_t : tst; l_pdeath : bool; l_exitkill : bool; l_waited : bool }.
@@ -20,18 +23,23 @@ Definition w_c s c := {| l_c := c; l_t := l_t s; l_pdeath := l_pdeath s; l_exitk
 
 Definition t_dead s := match l_t s with TDead => true | _ => false end.
 
-(** the child's own moves *)
-Definition child_steps (armed : bool) (s : ls) : list ls :=
+(** the child's own moves: [CInit] the clone has returned; the ids are changed (setgroups / setgid / setuid of the Credential), which
+    clears a parent-death signal asked for before; [CCred] ids changed *)
+Definition child_steps (m : mode) (s : ls) : list ls :=
+  let arm c := if t_dead s then [w_c s CDead]     (* prctl(PR_SET_PDEATHSIG, SIGKILL), then getppid: a launcher that is gone already is noticed *)
+               else [{| l_c := c; l_t := l_t s; l_pdeath := true; l_exitkill := l_exitkill s; l_waited := l_waited s |}] in
+  let stop := if t_dead s then [w_c s CParked] else [w_c s CStopped] in            (* PTRACE_TRACEME, kill(self, SIGSTOP) *)
   match l_c s with
-  | CInit =>
-      if armed then
-        (* prctl(PR_SET_PDEATHSIG, SIGKILL), then getppid: a launcher that is gone already is noticed *)
-        if t_dead s then [w_c s CDead]
-        else [{| l_c := CArmed; l_t := l_t s; l_pdeath := true; l_exitkill := l_exitkill s; l_waited := l_waited s |}]
-      else
-        (* PTRACE_TRACEME, kill(self, SIGSTOP) *)
-        if t_dead s then [w_c s CParked] else [w_c s CStopped]
-  | CArmed => [w_c s CStopped]
+  | CInit => match m with
+             | ArmEarly => arm CEarly
+             | _ => [w_c s CCred]
+             end
+  | CEarly => [{| l_c := CArmed; l_t := l_t s; l_pdeath := false; l_exitkill := l_exitkill s; l_waited := l_waited s |}]   (* the ids change: request cleared *)
+  | CCred => match m with
+             | ArmLate => arm CArmed
+             | _ => stop
+             end
+  | CArmed => stop
   | CResumed => [w_c s CProgram]          (* filter, execve: the program's code *)
   | _ => []
   end.
@@ -59,29 +67,29 @@ Definition death (s : ls) : list ls :=
             end in
   [{| l_c := c'; l_t := TDead; l_pdeath := l_pdeath s; l_exitkill := l_exitkill s; l_waited := l_waited s |}].
 
-Definition lnext (armed : bool) (s : ls) : list ls := child_steps armed s ++ tracer_steps s ++ death s.
+Definition lnext (m : mode) (s : ls) : list ls := child_steps m s ++ tracer_steps s ++ death s.
 
-Inductive lreach (armed : bool) : ls -> Prop :=
-| lr_init : lreach armed linit
-| lr_step s s' : lreach armed s -> In s' (lnext armed s) -> lreach armed s'.
+Inductive lreach (m : mode) : ls -> Prop :=
+| lr_init : lreach m linit
+| lr_step s s' : lreach m s -> In s' (lnext m s) -> lreach m s'.
 
-(** with the tracer dead the child is dead, or is still the launcher's own code about to notice *)
+(** with the tracer dead the child is dead, or is still the launcher's own code on its way to noticing *)
 Definition linv (s : ls) : bool :=
-  (if t_dead s then match l_c s with CDead | CInit => true | _ => false end else true) &&
-  (match l_c s with CArmed | CStopped | CResumed | CProgram => l_pdeath s || l_exitkill s | CParked => false | _ => true end).
+  (if t_dead s then match l_c s with CDead | CInit | CCred => true | _ => false end else true) &&
+  (match l_c s with CArmed | CStopped | CResumed | CProgram => l_pdeath s || l_exitkill s | CParked | CEarly => false | _ => true end).
 
-Lemma linv_step s : linv s = true -> forallb linv (lnext true s) = true.
+Lemma linv_step s : linv s = true -> forallb linv (lnext ArmLate s) = true.
 Proof. destruct s as [c t p e w]. destruct c, t, p, e, w; intros H; try discriminate H; reflexivity. Qed.
 
-Lemma linv_reach s : lreach true s -> linv s = true.
+Lemma linv_reach s : lreach ArmLate s -> linv s = true.
 Proof.
   induction 1 as [|s s' Hr IH Hin]; [reflexivity|].
   pose proof (linv_step s IH) as H. rewrite forallb_forall in H. apply H. exact Hin.
 Qed.
 
-Theorem armed_supervised s : lreach true s ->
+Theorem armed_supervised s : lreach ArmLate s ->
   (l_c s = CProgram -> l_t s <> TDead) /\
-  (l_t s = TDead -> l_c s = CDead \/ (l_c s = CInit /\ child_steps true s = [w_c s CDead])) /\
+  (l_t s = TDead -> l_c s = CDead \/ l_c s = CInit \/ (l_c s = CCred /\ child_steps ArmLate s = [w_c s CDead])) /\
   l_c s <> CParked.
 Proof.
   intros Hr. pose proof (linv_reach s Hr) as H. destruct s as [c t p e w].
@@ -92,39 +100,63 @@ Qed.
     PTRACE_SETOPTIONS leaves the program running with nobody supervising it, and one killed before
     the first wait4 leaves the child behind, stopped *)
 Theorem unarmed_refuted :
-  (exists s, lreach false s /\ l_t s = TDead /\ l_c s = CProgram) /\
-  (exists s, lreach false s /\ l_t s = TDead /\ l_c s = CParked).
+  (exists s, lreach Unarmed s /\ l_t s = TDead /\ l_c s = CProgram) /\
+  (exists s, lreach Unarmed s /\ l_t s = TDead /\ l_c s = CParked).
 Proof.
+  set (s0 := w_c linit CCred).
   set (s1 := w_c linit CStopped).
   set (s2 := {| l_c := CStopped; l_t := TWaited; l_pdeath := false; l_exitkill := false; l_waited := true |}).
   set (s3 := {| l_c := CResumed; l_t := TDead; l_pdeath := false; l_exitkill := false; l_waited := true |}).
   set (s4 := w_c s3 CProgram).
   set (s5 := {| l_c := CParked; l_t := TDead; l_pdeath := false; l_exitkill := false; l_waited := false |}).
-  assert (R1 : lreach false s1) by (apply (lr_step false linit); [constructor|cbn; auto]).
-  assert (R2 : lreach false s2) by (apply (lr_step false s1); [exact R1|cbn; auto]).
-  assert (R3 : lreach false s3) by (apply (lr_step false s2); [exact R2|cbn; auto]).
-  assert (R4 : lreach false s4) by (apply (lr_step false s3); [exact R3|cbn; auto]).
-  assert (R5 : lreach false s5) by (apply (lr_step false s1); [exact R1|cbn; auto]).
+  assert (R0 : lreach Unarmed s0) by (apply (lr_step Unarmed linit); [constructor|cbn; auto]).
+  assert (R1 : lreach Unarmed s1) by (apply (lr_step Unarmed s0); [exact R0|cbn; auto]).
+  assert (R2 : lreach Unarmed s2) by (apply (lr_step Unarmed s1); [exact R1|cbn; auto]).
+  assert (R3 : lreach Unarmed s3) by (apply (lr_step Unarmed s2); [exact R2|cbn; auto]).
+  assert (R4 : lreach Unarmed s4) by (apply (lr_step Unarmed s3); [exact R3|cbn; auto]).
+  assert (R5 : lreach Unarmed s5) by (apply (lr_step Unarmed s1); [exact R1|cbn; auto]).
   split; [exists s4|exists s5]; repeat split; assumption.
 Qed.
 
+(** asking for the signal BEFORE the ids are changed does not help: the change of ids clears the request *)
+Theorem arm_early_refuted : exists s, lreach ArmEarly s /\ l_t s = TDead /\ l_c s = CProgram.
+Proof.
+  set (e1 := {| l_c := CEarly; l_t := TStart; l_pdeath := true; l_exitkill := false; l_waited := false |}).
+  set (e2 := {| l_c := CArmed; l_t := TStart; l_pdeath := false; l_exitkill := false; l_waited := false |}).
+  set (e3 := w_c e2 CStopped).
+  set (e4 := {| l_c := CStopped; l_t := TWaited; l_pdeath := false; l_exitkill := false; l_waited := true |}).
+  set (e5 := {| l_c := CResumed; l_t := TDead; l_pdeath := false; l_exitkill := false; l_waited := true |}).
+  set (e6 := w_c e5 CProgram).
+  assert (R1 : lreach ArmEarly e1) by (apply (lr_step ArmEarly linit); [constructor|cbn; auto]).
+  assert (R2 : lreach ArmEarly e2) by (apply (lr_step ArmEarly e1); [exact R1|cbn; auto]).
+  assert (R3 : lreach ArmEarly e3) by (apply (lr_step ArmEarly e2); [exact R2|cbn; auto]).
+  assert (R4 : lreach ArmEarly e4) by (apply (lr_step ArmEarly e3); [exact R3|cbn; auto]).
+  assert (R5 : lreach ArmEarly e5) by (apply (lr_step ArmEarly e4); [exact R4|cbn; auto]).
+  assert (R6 : lreach ArmEarly e6) by (apply (lr_step ArmEarly e5); [exact R5|cbn; auto]).
+  exists e6. repeat split; assumption.
+Qed.
+
 (** * executable prediction for the crash-point runs *)
-(** what becomes of the child when the tracer is killed in state [s]: the kill, then the child's own moves *)
-Definition settle (armed : bool) (s : ls) : list cst :=
-  flat_map (fun s1 =>
-    match child_steps armed s1 with
-    | [] => [l_c s1]
-    | l => flat_map (fun s2 => match child_steps armed s2 with [] => [l_c s2] | l2 => map l_c l2 end) l
-    end) (death s).
+(** what becomes of the child when the tracer is killed in state [s]: the kill, then the child's own moves (at most three) *)
+Fixpoint run_child (m : mode) (fuel : nat) (s : ls) : list cst :=
+  match fuel with
+  | O => [l_c s]
+  | S f => match child_steps m s with
+           | [] => [l_c s]
+           | l => flat_map (run_child m f) l
+           end
+  end.
+Definition settle (m : mode) (s : ls) : list cst := flat_map (run_child m 4) (death s).
 
 (** the states in which the tracer stands at a step of its launch sequence:
     0 = Start has returned, 1 = the first wait4 has returned, 2 = right before PTRACE_SETOPTIONS,
     3 = options set, 4 = the child was continued *)
-Definition states_at (armed : bool) (step : nat) : list ls :=
+Definition states_at (m : mode) (step : nat) : list ls :=
   let mk c t p e w := {| l_c := c; l_t := t; l_pdeath := p; l_exitkill := e; l_waited := w |} in
+  let armed := match m with ArmLate => true | _ => false end in
   match step with
-  | 0 => if armed then [mk CInit TStart false false false; mk CArmed TStart true false false; mk CStopped TStart true false false]
-         else [mk CInit TStart false false false; mk CStopped TStart false false false]
+  | 0 => [mk CInit TStart false false false; mk CCred TStart false false false] ++
+         (if armed then [mk CArmed TStart true false false] else []) ++ [mk CStopped TStart armed false false]
   | 1 | 2 => [mk CStopped TWaited armed false true]
   | 3 => [mk CStopped TOptSet armed true true]
   | _ => [mk CResumed TRunning armed true true; mk CProgram TRunning armed true true]
@@ -135,28 +167,30 @@ Definition cst_dead c := match c with CDead => true | _ => false end.
 (** (step, nothing of the run was left): the observation must be what the model of the repaired sequence predicts *)
 Definition crash_ok (x : nat * bool) : bool :=
   let '(step, all_dead) := x in
-  Bool.eqb all_dead (forallb (fun s => forallb cst_dead (settle true s)) (states_at true step)).
+  Bool.eqb all_dead (forallb (fun s => forallb cst_dead (settle ArmLate s)) (states_at ArmLate step)).
 
 Example crash_prediction_armed : map (fun k => crash_ok (k, true)) [0; 1; 2; 3; 4] = [true; true; true; true; true].
 Proof. reflexivity. Qed.
 Example crash_prediction_unarmed :
-  map (fun k => forallb (fun s => forallb cst_dead (settle false s)) (states_at false k)) [0; 1; 2; 3; 4] = [false; false; false; true; true].
+  map (fun k => forallb (fun s => forallb cst_dead (settle Unarmed s)) (states_at Unarmed k)) [0; 1; 2; 3; 4] = [false; false; false; true; true].
 Proof. reflexivity. Qed.
 
-Lemma states_at_reach k s : In s (states_at true k) -> lreach true s.
+Lemma states_at_reach k s : In s (states_at ArmLate k) -> lreach ArmLate s.
 Proof.
+  set (a0 := w_c linit CCred).
   set (a1 := {| l_c := CArmed; l_t := TStart; l_pdeath := true; l_exitkill := false; l_waited := false |}).
   set (a2 := {| l_c := CStopped; l_t := TStart; l_pdeath := true; l_exitkill := false; l_waited := false |}).
   set (a3 := {| l_c := CStopped; l_t := TWaited; l_pdeath := true; l_exitkill := false; l_waited := true |}).
   set (a4 := {| l_c := CStopped; l_t := TOptSet; l_pdeath := true; l_exitkill := true; l_waited := true |}).
   set (a5 := {| l_c := CResumed; l_t := TRunning; l_pdeath := true; l_exitkill := true; l_waited := true |}).
   set (a6 := {| l_c := CProgram; l_t := TRunning; l_pdeath := true; l_exitkill := true; l_waited := true |}).
-  assert (R1 : lreach true a1) by (apply (lr_step true linit); [constructor|cbn; auto]).
-  assert (R2 : lreach true a2) by (apply (lr_step true a1); [exact R1|cbn; auto]).
-  assert (R3 : lreach true a3) by (apply (lr_step true a2); [exact R2|cbn; auto]).
-  assert (R4 : lreach true a4) by (apply (lr_step true a3); [exact R3|cbn; auto]).
-  assert (R5 : lreach true a5) by (apply (lr_step true a4); [exact R4|cbn; auto]).
-  assert (R6 : lreach true a6) by (apply (lr_step true a5); [exact R5|cbn; auto]).
-  destruct k as [|[|[|[|k]]]]; cbn [states_at]; intros H; cbn [In] in H;
+  assert (R0 : lreach ArmLate a0) by (apply (lr_step ArmLate linit); [constructor|cbn; auto]).
+  assert (R1 : lreach ArmLate a1) by (apply (lr_step ArmLate a0); [exact R0|cbn; auto]).
+  assert (R2 : lreach ArmLate a2) by (apply (lr_step ArmLate a1); [exact R1|cbn; auto]).
+  assert (R3 : lreach ArmLate a3) by (apply (lr_step ArmLate a2); [exact R2|cbn; auto]).
+  assert (R4 : lreach ArmLate a4) by (apply (lr_step ArmLate a3); [exact R3|cbn; auto]).
+  assert (R5 : lreach ArmLate a5) by (apply (lr_step ArmLate a4); [exact R4|cbn; auto]).
+  assert (R6 : lreach ArmLate a6) by (apply (lr_step ArmLate a5); [exact R5|cbn; auto]).
+  destruct k as [|[|[|[|k]]]]; cbn [states_at app]; intros H; cbn [In] in H;
     repeat (destruct H as [<-|H]; [first [apply lr_init|assumption]|]); contradiction.
 Qed.
